@@ -52,6 +52,13 @@ pub fn compare(c: &Case, full: &ObsVoronoi, kappa: &[(f64, f64, f64)], mask: &[b
     let thr = tol::face_threshold(c);
     let mut it = vi.cells_iter();
     let mut interesting = false;
+    // the agreement of the two sides of a face is only defined for arrangements that are
+    // determined up to rounding (same exemption as C03; bitwise comparisons and the
+    // bookkeeping rules below apply to every input)
+    let unresolvable = crate::refcmp::unresolvable(c);
+    if unresolvable {
+        cs.label("unresolvable-arrangement");
+    }
     for i in 0..n {
         let (f, p) = (&full.cells[i], &part.cells[i]);
         if vi.get_cell_at(i).is_some() != mask[i] {
@@ -91,7 +98,9 @@ pub fn compare(c: &Case, full: &ObsVoronoi, kappa: &[(f64, f64, f64)], mask: &[b
                         };
                         let tola = pos * crate::cellinfo::face_perimeter_bound(c.d(), r) + 1e-9 * a.abs();
                         let well = kappa[i].0 <= tol::KAPPA_WELL && k.0.map_or(true, |j| kappa[j].0 <= tol::KAPPA_WELL) && !tol::lowdim_area_unreliable(c);
-                        if !well {
+                        if unresolvable {
+                            cs.count("faces_other_side_skipped_unresolvable_arrangement", 1);
+                        } else if !well {
                             cs.count("faces_other_side_skipped_ill_conditioned", 1);
                         } else if (a - b).abs() > tola {
                             return Err(format!("selected cell {i}: face {:?} has area {:e} in the partial and {:e} in the full build", k, b, a));
